@@ -21,12 +21,26 @@ struct MoveKey {
 	bool operator==(const MoveKey & o) const { return k == o.k; }
 };
 template <typename K, typename V> using StdMap = std::map<K, V>;
-struct Pol { using Threading = VMutexOnlyThreading; using ArgumentPassingMode = eventpp::ArgumentPassingIncludeEvent; template <typename K, typename V> using Map = StdMap<K, V>; };
 using HT = eventpp::HeterTuple<void(const MoveKey &, uint32_t), void(const MoveKey &)>;
-#if OBJ == 1
-using T = eventpp::HeterEventDispatcher<MoveKey, HT, Pol>;
+#ifdef EXCL
+// EXCL: the default ArgumentPassingExcludeEvent mode with a getEvent policy that takes the movable ARGUMENT by value and consumes its copy:
+// the policy must get a copy, the listeners (and the queued tuple) the caller's value
+struct Pol {
+	using Threading = VMutexOnlyThreading; template <typename K, typename V> using Map = StdMap<K, V>;
+	static uint32_t getEvent(uint32_t code, MoveKey k, uint32_t) { MoveKey sink(std::move(k)); (void)sink; return code; }
+	static uint32_t getEvent(uint32_t code, MoveKey k) { MoveKey sink(std::move(k)); (void)sink; return code; }
+};
+using EvT = uint32_t;
+#define EVKEY(v) (v)
 #else
-using T = eventpp::HeterEventQueue<MoveKey, HT, Pol>;
+struct Pol { using Threading = VMutexOnlyThreading; using ArgumentPassingMode = eventpp::ArgumentPassingIncludeEvent; template <typename K, typename V> using Map = StdMap<K, V>; };
+using EvT = MoveKey;
+#define EVKEY(v) MoveKey(v)
+#endif
+#if OBJ == 1
+using T = eventpp::HeterEventDispatcher<EvT, HT, Pol>;
+#else
+using T = eventpp::HeterEventQueue<EvT, HT, Pol>;
 #endif
 
 struct TrEntry { int proto; uint32_t lid; uint32_t key; uint32_t state; uint32_t val; };
@@ -40,10 +54,10 @@ extern "C" void harness()
 	T * t = new T();
 	uint32_t k1 = vf_nondet_u32(), kd = vf_nondet_u32(), val = vf_nondet_u32();
 	vf_assume(k1 != 0 && kd != 0);                       // 0 is what a moved-from key looks like
-	t->appendListener(MoveKey(k1), [](const MoveKey & k, uint32_t a) { rec(0, 1, k, a); });
-	t->appendListener(MoveKey(k1), [](const MoveKey & k) { rec(1, 2, k, 0); });
-	t->appendListener(MoveKey(k1), [](const MoveKey & k, uint32_t a) { rec(0, 3, k, a); });
-	t->appendListener(MoveKey(0), [](const MoveKey & k, uint32_t a) { rec(0, 9, k, a); });      // listens to the key a moved-from event would route to
+	t->appendListener(EVKEY(k1), [](const MoveKey & k, uint32_t a) { rec(0, 1, k, a); });
+	t->appendListener(EVKEY(k1), [](const MoveKey & k) { rec(1, 2, k, 0); });
+	t->appendListener(EVKEY(k1), [](const MoveKey & k, uint32_t a) { rec(0, 3, k, a); });
+	t->appendListener(EVKEY(0), [](const MoveKey & k, uint32_t a) { rec(0, 9, k, a); });      // listens to the key a moved-from event would route to
 	g_trn = 0;
 	bool viaQueue = false;
 #if OBJ == 2
@@ -53,6 +67,18 @@ extern "C" void harness()
 #define CALL(...) t->dispatch(__VA_ARGS__)
 #endif
 	int proto = 0;
+#ifdef EXCL
+	uint32_t pv = vf_nondet_u32(); vf_assume(pv != 0);
+	const uint32_t expectKey = pv;
+	switch(vf_choose(5)) {
+	case 0: CALL(kd, MoveKey(pv), val); vf_cover(COV_TEMP); break;
+	case 1: { MoveKey key(pv); CALL(kd, key, val); vf_assert(key.k == pv && key.state == 1, 280); vf_cover(COV_LVALUE); break; }
+	case 2: { const MoveKey key(pv); CALL(kd, key, val); vf_cover(COV_CONST); break; }
+	case 3: { MoveKey key(pv); CALL(kd, std::move(key), val); vf_cover(COV_XVALUE); break; }
+	default: CALL(kd, MoveKey(pv)); proto = 1; vf_cover(COV_ONE_ARG); break;
+	}
+#else
+	const uint32_t expectKey = kd;
 	switch(vf_choose(5)) {
 	case 0: CALL(MoveKey(kd), val); vf_cover(COV_TEMP); break;
 	case 1: { MoveKey key(kd); CALL(key, val); vf_assert(key.k == kd && key.state == 1, 280); vf_cover(COV_LVALUE); break; }       // the caller's lvalue is not consumed
@@ -60,17 +86,18 @@ extern "C" void harness()
 	case 3: { MoveKey key(kd); CALL(std::move(key), val); vf_cover(COV_XVALUE); break; }
 	default: CALL(MoveKey(kd)); proto = 1; vf_cover(COV_ONE_ARG); break;
 	}
+#endif
 	(void)viaQueue;
 	// exactly the callbacks of the selected prototype registered for the dispatched key, in order, each seeing that key and the value intact
 	if(kd == k1) {
 		if(proto == 0) {
 			vf_assert(g_trn == 2, 281);
-			vf_assert(g_trn >= 1 && g_tr[0].lid == 1 && g_tr[0].key == kd && g_tr[0].state == 1 && g_tr[0].val == val, 282);
-			vf_assert(g_trn >= 2 && g_tr[1].lid == 3 && g_tr[1].key == kd && g_tr[1].state == 1 && g_tr[1].val == val, 283);
+			vf_assert(g_trn >= 1 && g_tr[0].lid == 1 && g_tr[0].key == expectKey && g_tr[0].state == 1 && g_tr[0].val == val, 282);
+			vf_assert(g_trn >= 2 && g_tr[1].lid == 3 && g_tr[1].key == expectKey && g_tr[1].state == 1 && g_tr[1].val == val, 283);
 		}
 		else {
 			vf_assert(g_trn == 1, 284);
-			vf_assert(g_trn >= 1 && g_tr[0].lid == 2 && g_tr[0].key == kd && g_tr[0].state == 1, 285);
+			vf_assert(g_trn >= 1 && g_tr[0].lid == 2 && g_tr[0].key == expectKey && g_tr[0].state == 1, 285);
 		}
 	}
 	else { vf_assert(g_trn == 0, 286); vf_cover(COV_MISS); }       // in particular not the listener of the moved-from key
